@@ -891,14 +891,14 @@ def gl_certificates(ctx, gl_tables):
         X = [int(x * (1 << E)) for x in xs]
         W = [int(w * (1 << F)) for w in ws]
         s = ("From Coq Require Import Reals ZArith List.\nFrom Bignums Require Import BigZ.\nFrom Coquelicot Require Import Coquelicot.\n"
-             "From SpdVerif Require Import Base.NumOps Gen.Integration Model.Quadrature Proofs.C12_rule Proofs.C12_cert Props.C12.\n"
+             "From SpdVerif Require Import Base.NumOps Gen.Integration Model.Quadrature Proofs.C12_rule Proofs.C12_cert.\n"
              "Import ListNotations.\n")
         s += f"(* Gauss-Legendre rule with {n} points as extracted from Integrator::GaussLegendre {{ degree: {n} }}.integrate on [-1,1]:\n" \
              f"   nodes X_i / 2^{E}, weights W_i / 2^{F} (exact binary64 values) *)\n"
         s += "Definition xs : list bigZ := [%s]%%bigZ.\n" % "; ".join(f"({x})" for x in X)
         s += "Definition ws : list bigZ := [%s]%%bigZ.\n" % "; ".join(f"({w})" for w in W)
         s += f"Lemma cert : cert_check_big {E} {F} {2 * n - 1} 1 {GL_EPS_DEN} xs ws = true.\nProof. vm_compute. reflexivity. Qed.\n"
-        s += f"Definition gl_{n}_exact := C12_certified_rule_exact {E} {F} {2 * n - 1} 1 {GL_EPS_DEN} xs ws eq_refl eq_refl eq_refl cert.\n"
+        s += f"Definition gl_{n}_exact := certified_rule_exact {E} {F} {2 * n - 1} 1 {GL_EPS_DEN} xs ws eq_refl eq_refl eq_refl cert.\n"
         s += f"Check (gl_{n}_exact : forall (a b : R) (cs : list C), (length cs <= {2 * n})%nat -> _).\n"
         s += f"Goal True. idtac \"CERT {n} OK\". Abort.\n"
         if n == biggest:
@@ -951,8 +951,8 @@ def gl_certificates(ctx, gl_tables):
                                                           "weights": [float(w) for w in ws],
                                                           "call": f"Integrator::GaussLegendre {{ degree: {n} }}.integrate(|x| x.powi({wk}), -1., 1.)"})
         else:
-            ctx.violation("S4", f"moment certificate of the extracted {n}-point Gauss-Legendre rule does not check at 1/{GL_EPS_DEN} "
-                                f"(largest moment error {float(worst):.3e})", {"kind": "gl_certificate", "n": n}, {"n": n}, found_input=False)
+            ctx.violation("S4", f"moment certificate of an extracted Gauss-Legendre rule does not check at 1/{GL_EPS_DEN} "
+                                f"(n = {n}: largest moment error {float(worst):.3e})", {"kind": "gl_certificate"}, {"n": n}, found_input=False)
     return ok
 
 
@@ -1015,7 +1015,11 @@ def run(ctx):
     if not msgs:
         proved = prove(ctx, "C12", extra_targets=["Proofs/C12_cases.vo"])
         build_findings(ctx)
-    cases_ok = os.path.exists(os.path.join(COQ, "Proofs", "C12_cases.vo")) and os.path.exists(os.path.join(COQ, "Gen", "Integration.vo"))
+    # the files the generated cases import must have been (re)built against the current Gen/ — never use a stale .vo
+    cases_ok = cert_ok = False
+    if not msgs:
+        cases_ok = proved or coq_build(ctx, ["Proofs/C12_cases.vo"], timeout=900)[0]
+        cert_ok = proved or coq_build(ctx, ["Proofs/C12_cert.vo"], timeout=900)[0]
     rng = random.Random(ctx.seed)
     obs0 = run_jobs(ctx, binp, count_jobs(), nproc=4)
     counts = {int(k[1:]): o["evals"] - 1 for k, o in obs0.items() if o.get("ok") and o.get("evals", 0) > 1}
@@ -1032,10 +1036,10 @@ def run(ctx):
     nbad = 0
     if cases_ok:
         gl_tables, nbad = correspondence(ctx, C, obs)
-        if os.path.exists(os.path.join(COQ, "Props", "C12.vo")):
+        if cert_ok:
             gl_certificates(ctx, gl_tables)
         else:
-            ctx.note("Gauss-Legendre certificates skipped: Props/C12.vo did not build")
+            ctx.note("Gauss-Legendre certificates skipped: Proofs/C12_cert.vo did not build")
     else:
         ctx.note("correspondence cases skipped: generated model did not compile")
     def baseline(v):
